@@ -98,7 +98,7 @@ def run(ctx):
     if binp is None:
         ctx.violation("harness-build", {"log": bout[-4000:]}, "harness c24 does not build against /repo", no_input=True)
         return
-    nrand = 100 if ctx.quick else 2500
+    nrand = 70 if ctx.quick else 2500
     maxev = 6 if ctx.quick else 12
     cases = []
     for n, (key, evs, script) in enumerate(SCRIPTS):
